@@ -152,6 +152,30 @@ def corpus(kind, spec, canary, dtd_path, port, rng):
             if b2 != body.replace('@@T0@@', 'x'):
                 docs.append({'template': 'attr-flood-child-%d' % n, 'method': meth, 'pos': 'attr', 'doc': b2, 'bomb': False,
                              'forbidden_text': []})
+    # SOAP multi-reference values (id/href): a value referenced from several places is expanded at each of them, so chains of
+    # references multiply like entity chains do; and what is copied for each reference includes the attributes of the value
+    if kind in ('soap11', 'soap12'):
+        mr_body = [b for m, b in valid_requests(kind) if m == 'echo_item'][0]
+        def multiref(extra_attrs, values):
+            b = re.sub(r'<tns:it>.*</tns:it>', '<tns:it href="#top"/>', mr_body, count=1, flags=re.S)
+            return re.sub(r'</tns:echo_item>', lambda m: '</tns:echo_item>' + values, b, count=1)
+        mfans = [(10, 5), (2, 16)] if tier == 'quick' else [(2, 3), (10, 3), (10, 5), (10, 7), (10, 9), (2, 16), (2, 22), (3, 12), (100, 3), (1000, 2)]
+        for fan, depth in mfans:
+            vals = ['<tns:v id="l0"><tns:a>7</tns:a><tns:b>x</tns:b></tns:v>']
+            for i in range(1, depth + 1):
+                vals.append('<tns:v id="l%d">%s</tns:v>' % (i, ''.join('<tns:k href="#l%d"/>' % (i - 1) for _ in range(fan))))
+            vals.append('<tns:Item id="top"><tns:a>7</tns:a><tns:b>x</tns:b><tns:k href="#l%d"/></tns:Item>' % depth)
+            docs.append({'template': 'multiref-chain-f%d-d%d' % (fan, depth), 'method': 'echo_item', 'pos': 'elem', 'doc': multiref('', ''.join(vals)),
+                         'bomb': False, 'multiref': True, 'forbidden_text': []})
+        for n in ([10 ** 4] if tier == 'quick' else [10 ** 2, 10 ** 4, 10 ** 5]):
+            attrs = ' '.join('a%d=""' % i for i in range(n))
+            docs.append({'template': 'multiref-attr-flood-%d' % n, 'method': 'echo_item', 'pos': 'attr', 'bomb': False, 'multiref': True,
+                         'forbidden_text': [], 'doc': multiref('', '<tns:Item id="top" %s><tns:a>7</tns:a><tns:b>x</tns:b></tns:Item>' % attrs)})
+            docs.append({'template': 'multiref-accessor-attr-flood-%d' % n, 'method': 'echo_item', 'pos': 'attr', 'bomb': False, 'multiref': True,
+                         'forbidden_text': [], 'doc': multiref('', '<tns:Item id="top"><tns:a>7</tns:a><tns:b>x</tns:b></tns:Item>').replace(
+                             '<tns:it href="#top"/>', '<tns:it href="#top" %s/>' % attrs)})
+        docs.append({'template': 'multiref-plain', 'method': 'echo_item', 'pos': 'elem', 'bomb': False, 'multiref': True, 'control': True,
+                     'forbidden_text': [], 'doc': multiref('', '<tns:Item id="top"><tns:a>7</tns:a><tns:b>x</tns:b></tns:Item>')})
     # benign controls: the monitors must see a normal call
     for meth, body in valid_requests(kind):
         docs.append({'template': 'control-valid', 'method': meth, 'pos': 'text', 'doc': body.replace('@@T0@@', '5'), 'bomb': False,
@@ -461,6 +485,11 @@ def run(spec, R):
         if r.get('cpu_bound'):
             R.violation('more than 20 s of CPU for one %d-byte document; stack: %s' % (len(d['doc']), r['cpu_bound'][-600:]), case,
                         mech='cpu_bound_exceeded')
+        if d.get('multiref') and r.get('rss_growth_kb', 0) > 300000:
+            R.violation('resident set grew by %d MB while a %d-byte request with multi-reference values was read' % (r['rss_growth_kb'] // 1024, len(d['doc'])),
+                        case, mech='memory_bound_exceeded:multiref')
+        if d.get('multiref'):
+            R.count('multiref_documents')
         if r.get('memory_error'):
             R.violation('MemoryError while processing a %d-byte document' % len(d['doc']), case, mech='memory_bound_exceeded')
         if r.get('exc') and not r.get('cpu_bound'):
